@@ -598,6 +598,12 @@ func famSeqs(n int, rng *rand.Rand, nrand int) []hSeq {
 	for r := 0; r < nrand; r++ {
 		out = append(out, hSeq{fmt.Sprintf("random#%d", r), mk(func(i int) bool { return rng.Intn(2) == 1 })})
 	}
+	// mostly random with one long run at the end / at the start (run accounting at the sequence boundaries)
+	out = append(out, hSeq{"random+closing-run-of-ones", mk(func(i int) bool { return i >= n-40 || rng.Intn(2) == 1 })})
+	out = append(out, hSeq{"random+closing-run-of-zeros", mk(func(i int) bool { return i < n-40 && rng.Intn(2) == 1 })})
+	out = append(out, hSeq{"random+opening-run-of-ones", mk(func(i int) bool { return i < 40 || rng.Intn(2) == 1 })})
+	// a walk that leaves 0 at the first step and drifts (extreme of the partial sums at the last step)
+	out = append(out, hSeq{"drifting-up", mk(func(i int) bool { return i%5 != 4 })})
 	return out
 }
 
